@@ -51,3 +51,7 @@ N("c13-n-early-return-close", "C13", MEM, f"{RS}.close",
 N("c13-n-eos-nested", "C13", MEM, f"{RS}.receive_nowait",
   "        if self._state.buffer:\n            return self._state.buffer.popleft()\n        elif not self._state.open_send_channels:\n            raise EndOfStream\n\n        raise WouldBlock",
   "        if self._state.buffer:\n            return self._state.buffer.popleft()\n\n        if self._state.open_send_channels:\n            raise WouldBlock\n\n        raise EndOfStream")
+
+# from seeded changes C13/c and C13/d (round 2)
+M("c13-aclose-checkpoint-before-close", "C13", MEM, "MemoryObjectReceiveStream.aclose", "        self.close()", "        await checkpoint()\n        self.close()", ["R13-b"])
+M("c13-anext-closed-is-clean-end", "C13", "abc/_streams.py", "UnreliableObjectReceiveStream.__anext__", "        except EndOfStream:", "        except (EndOfStream, ClosedResourceError):", ["R13-d"])
